@@ -1,6 +1,7 @@
 package decoders
 
 import (
+	"bytes"
 	"context"
 	"errors"
 	"fmt"
@@ -13,6 +14,28 @@ import (
 )
 
 //go:generate go run github.com/vektra/mockery/v2@v2.22.1 --inpackage --name=Decoder --filename=mock_decoder.go
+
+// readSized reads exactly size bytes. The buffer grows with the data actually read, so a size field
+// that is larger than the file cannot force a huge allocation.
+func readSized(r io.Reader, size int) ([]byte, int, error) {
+	if size < 0 {
+		return nil, 0, fmt.Errorf("negative ammo size %d", size)
+	}
+	var buf bytes.Buffer
+	const preallocLimit = 64 << 10
+	if size < preallocLimit {
+		buf.Grow(size)
+	} else {
+		buf.Grow(preallocLimit)
+	}
+	n, err := io.CopyN(&buf, r, int64(size))
+	if err == io.EOF {
+		if n > 0 {
+			err = io.ErrUnexpectedEOF
+		}
+	}
+	return buf.Bytes(), int(n), err
+}
 
 func filePosition(file io.ReadSeeker) (position int64) {
 	position, _ = file.Seek(0, io.SeekCurrent)
